@@ -1006,12 +1006,31 @@ def rule_quantity_dimensionality_memo(ck, ix):
         ck.check(bool(gates) and bad is None, "G-MEMO-INV", key + "|" + name, fi.loc(cfg.nodes[tests[0]].ast),
                  f"stale edge {name}", f"on a stale memo the property returns without {name}", witness(cfg, bad))
     # who may write the memo
+    key_attrs = set()
+    for nd_ in ast.walk(fi.node):
+        if isinstance(nd_, ast.Compare) and len(nd_.ops) == 1 and isinstance(nd_.ops[0], (ast.Is, ast.IsNot, ast.Eq, ast.NotEq)) \
+                and "self._units" in (norm(nd_.left), norm(nd_.comparators[0])):
+            for side in (nd_.left, nd_.comparators[0]):
+                if isinstance(side, ast.Attribute) and norm(side) != "self._units" and "_dimensionality" in side.attr:
+                    key_attrs.add(side.attr)
+    key_attrs.discard("_dimensionality")
     for f in ix.all_functions():
         if f is fi:
             continue
         for (p, kind, node) in writes_in(f.node):
             if p.endswith("._dimensionality") and f.cls is not None and f.cls.name in ("PlainQuantity",) :
                 ck.fail("G-OWN", f"Quantity:_dimensionality|written-by={f.qualname}", f.loc(node), "the per-object memo is written outside its property")
+            # the field that records *which* units container the memo was computed for (the other side of the
+            # validity test) is part of the memo: re-pointing it at another container outside the property makes a
+            # stale value pass the validity test (ito under a context changes the dimensionality). Storing None
+            # only invalidates and is accepted.
+            if kind == "attr-store" and p.rsplit(".", 1)[-1] in key_attrs and f.cls is not None and f.cls.name in ("PlainQuantity",):
+                val = getattr(node, "value", None)
+                if isinstance(val, ast.Constant) and val.value is None:
+                    ck.ok("G-OWN", f"Quantity:{p.rsplit('.', 1)[-1]}|invalidated-by={f.qualname}", f.loc(node), "the recorded units are reset to None (invalidation)")
+                else:
+                    ck.fail("G-OWN", f"Quantity:{p.rsplit('.', 1)[-1]}|written-by={f.qualname}", f.loc(node),
+                            f"`{norm(node)}` re-points the units container the dimensionality memo is recorded for outside the property: a memo computed for other units then passes the validity test (stale dimensionality after an in-place conversion under a context)")
 
 
 def rule_unit_dimensionality_memo(ck, ix):
